@@ -40,6 +40,7 @@ type Scenario struct {
 	// ssim only
 	SClients    []SClient `json:"sclients,omitempty"`
 	Phase2      []SClient `json:"phase2,omitempty"`        // clients started after phase 1 ended (or was killed) on a reopened backend
+	FsMTime     bool      `json:"fs_mtime,omitempty"`      // file-system backends: update_mtime=on (reads touch the file's modification time)
 	FsTimeoutNs int64     `json:"fs_timeout_ns,omitempty"` // store-level: operation timeout of the file-system backend (0 = default, 5 min)
 	Disjoint    bool      `json:"disjoint,omitempty"`      // store-level: client i is the only one that touches key i
 	Keys        []string  `json:"keys,omitempty"`          // key table (base64 in JSON would be nicer; Go strings may hold any bytes, JSON-escaped)
@@ -58,6 +59,7 @@ type Resource struct {
 type RespPlan struct {
 	Status   int         `json:"status"`
 	CC       string      `json:"cc,omitempty"`
+	CCStyle  string      `json:"cc_style,omitempty"`  // "" | "lines" (one field line per directive) | "case" (directive names in mixed case)
 	DateMode string      `json:"date,omitempty"`      // "" = now | "skew" | "absent" | "invalid"
 	DateSkew int64       `json:"date_skew,omitempty"` // seconds added to now
 	Age      string      `json:"age,omitempty"`       // literal Age value ("" absent); "dup:a,b" = two field lines
@@ -93,20 +95,22 @@ type Client struct {
 }
 
 type Op struct {
-	ThinkNs  int64       `json:"think_ns,omitempty"`
-	Method   string      `json:"method,omitempty"` // "" = GET
-	Res      int         `json:"res"`
-	Spelling int         `json:"spelling,omitempty"` // URI spelling transformation index
-	CC       string      `json:"cc,omitempty"`
-	Hdr      [][2]string `json:"hdr,omitempty"`
-	Range    bool        `json:"range,omitempty"`
-	Cond     string      `json:"cond,omitempty"`      // client-supplied conditional: "" | "inm-current" | "inm-bogus" | "ims"
-	CancelNs int64       `json:"cancel_ns,omitempty"` // >0: cancel the context that long after invoke; <0: before the call
-	Read     string      `json:"read,omitempty"`      // "" = all | "partial" | "close"
-	Poison   bool        `json:"poison,omitempty"`
-	Reuse    bool        `json:"reuse,omitempty"` // send the very *http.Request value of this client's previous identical operation again (a polling loop)
-	Admin    string      `json:"admin,omitempty"` // "" | "restart" | "crash" | "corrupt" | "dump"
-	AdminArg int         `json:"admin_arg,omitempty"`
+	ThinkNs     int64       `json:"think_ns,omitempty"`
+	Method      string      `json:"method,omitempty"` // "" = GET
+	Res         int         `json:"res"`
+	Spelling    int         `json:"spelling,omitempty"` // URI spelling transformation index
+	CC          string      `json:"cc,omitempty"`
+	CCStyle     string      `json:"cc_style,omitempty"` // "" | "lines" (one field line per directive) | "case" (directive names in mixed case)
+	Hdr         [][2]string `json:"hdr,omitempty"`
+	Range       bool        `json:"range,omitempty"`
+	Cond        string      `json:"cond,omitempty"`      // client-supplied conditional: "" | "inm-current" | "inm-bogus" | "ims"
+	CancelNs    int64       `json:"cancel_ns,omitempty"` // >0: cancel the context that long after invoke; <0: before the call
+	Read        string      `json:"read,omitempty"`      // "" = all | "partial" | "close"
+	Poison      bool        `json:"poison,omitempty"`
+	Reuse       bool        `json:"reuse,omitempty"`        // send the very *http.Request value of this client's previous identical operation again (a polling loop)
+	EmptyMethod bool        `json:"empty_method,omitempty"` // send the GET with Method "" (what a struct-literal http.Request has)
+	Admin       string      `json:"admin,omitempty"`        // "" | "restart" | "crash" | "corrupt" | "dump"
+	AdminArg    int         `json:"admin_arg,omitempty"`
 }
 
 // StoreFault addresses the Nth operation of a kind at the Conn seam (counted in grant order).
